@@ -1,6 +1,7 @@
 import FxpVerif.Spec.C03
 import FxpVerif.Lemmas.Round
 import FxpVerif.Lemmas.Overflow
+import FxpVerif.Lemmas.BitsInt
 /-! # C03 — property theorems (every statement is for arbitrary `n_word ≥ 1`; there is no 64 here) -/
 namespace Fxp.C03
 open Fxp
@@ -8,6 +9,29 @@ open Fxp
 /-- the model's `wrap` (mask, then sign-extend — `utils.wrap`) satisfies the Spec … -/
 theorem wrap_spec (f : Fmt) (hw : 0 < f.nword) (k : ℤ) : Spec f k (wrap f k) :=
   ⟨wrap_inRange f hw k, wrap_congr f k⟩
+
+/-- `utils.wrap` **as written**: mask with `& (2^n - 1)`, then `np.where(x < 2^(n-1), x, x | -2^n)` when signed — on
+two's-complement integers of unbounded size (`Int.land` / `Int.lor`). -/
+def wrapBits (f : Fmt) (k : ℤ) : ℤ :=
+  let m : ℤ := 2 ^ f.nword
+  let x := Int.land k (m - 1)
+  if f.signed then (if x < 2 ^ (f.nword - 1) then x else Int.lor x (-m)) else x
+
+/-- the bitwise formulation of the code and the arithmetic formulation of the model are the same function (this used to be a
+trusted identity; it is a theorem now). -/
+theorem wrapBits_eq_wrap (f : Fmt) (k : ℤ) : wrapBits f k = wrap f k := by
+  unfold wrapBits wrap
+  simp only [BitsInt.land_mask]
+  have hp : (0:ℤ) < 2 ^ f.nword := by positivity
+  have h0 := Int.emod_nonneg k (ne_of_gt hp)
+  have h1 := Int.emod_lt_of_pos k hp
+  cases f.signed
+  · simp
+  · simp only [if_true]
+    split
+    · rfl
+    · exact BitsInt.lor_neg_pow f.nword _ h0 h1
+
 
 /-- … and the Spec has exactly one solution: "the unique in-range integer congruent to the rounded input". -/
 theorem wrap_spec_iff (f : Fmt) (hw : 0 < f.nword) (k c : ℤ) : Spec f k c ↔ c = wrap f k :=
